@@ -69,6 +69,23 @@ def strategy(tier):
     return mix()
 
 
+def enumerate_cases(tier):
+    """information units under SI and IEC prefixes, every pairing: byte is 2**3 bit, kilo is
+    10**3 -- equal exponents of different bases, equal values under different spellings"""
+    out = []
+    units = [n for n in ("bit", "byte", "nibble") if n in C.units]
+    pf = ["", "kilo", "kibi", "mega", "mebi"]
+    k = 0
+    for ua in units:
+        for pa in pf:
+            for ub in units:
+                for pb in pf:
+                    k += 1
+                    out.append({"f": "info", "A": [[pa, ua, 1]], "A2": [["", "bit", 1]], "B": [[pb, ub, 1]], "B2": [["", "shannon" if "shannon" in C.units else "bit", 1]],
+                                "ma": {"t": "int", "v": 1 + k % 3}, "mb": {"t": ["int", "float", "dec"][k % 3], "v": [125, 1000.0, "8"][k % 3]}, "n": 2})
+    return out
+
+
 def _signs_of(c, terms):
     """sign vector implied by a D_ok term list (for deriving one more target)"""
     signs = {}
